@@ -22,7 +22,10 @@ func elfForbiddenSections(path string) ([]string, error) {
 	var bad []string
 	for _, s := range f.Sections {
 		n := s.Name
-		if n == ".symtab" || n == ".strtab" || n == ".dynsym" || strings.HasPrefix(n, ".debug_") || strings.HasPrefix(n, ".zdebug_") || (n == ".gosymtab" && s.Size > 0) {
+		// .dynsym/.dynstr are not the symbol table the property speaks of: an externally linked (cgo)
+		// binary needs them to import libc, in the regular build too; their contents are covered by
+		// the marker scan like every other byte of the file.
+		if n == ".symtab" || n == ".strtab" || strings.HasPrefix(n, ".debug_") || strings.HasPrefix(n, ".zdebug_") || (n == ".gosymtab" && s.Size > 0) {
 			if s.Size > 0 || n != ".gosymtab" {
 				bad = append(bad, n)
 			}
@@ -34,6 +37,40 @@ func elfForbiddenSections(path string) ([]string, error) {
 	return bad, nil
 }
 
+// goBuildIDNote returns the descriptor of the ELF note (name "Go", type 4) that holds the Go build ID.
+func goBuildIDNote(path string) (string, error) {
+	f, err := elf.Open(path)
+	if err != nil {
+		return "", err
+	}
+	defer f.Close()
+	for _, s := range f.Sections {
+		if s.Type != elf.SHT_NOTE {
+			continue
+		}
+		data, err := s.Data()
+		if err != nil {
+			continue
+		}
+		for len(data) >= 12 {
+			namesz := f.ByteOrder.Uint32(data[0:])
+			descsz := f.ByteOrder.Uint32(data[4:])
+			typ := f.ByteOrder.Uint32(data[8:])
+			no := 12 + (int(namesz)+3)&^3
+			end := no + (int(descsz)+3)&^3
+			if no > len(data) || end > len(data) || no+int(descsz) > len(data) {
+				break
+			}
+			name := strings.TrimRight(string(data[12:12+namesz]), "\x00")
+			if name == "Go" && typ == 4 {
+				return string(data[no : no+int(descsz)]), nil
+			}
+			data = data[end:]
+		}
+	}
+	return "", nil
+}
+
 // metadataProbes checks `go version -m`, `go tool buildid`, the ELF section table
 // and the Go version string. Returns a list of leaks.
 func metadataProbes(bin string) []string {
@@ -43,8 +80,9 @@ func metadataProbes(bin string) []string {
 	if out != bin+": unknown" {
 		leaks = append(leaks, "go version -m prints: "+clip(r.Out, 400)+clip(r.Err, 200))
 	}
-	r = Run(Cmd{Env: plainEnv(), Argv: []string{"go", "tool", "buildid", bin}, Timeout: time.Minute})
-	if id := strings.TrimSpace(string(r.Out)); id != "" {
+	// The Go build ID note. (`go tool buildid` is not used: without a Go note it falls back to the GNU
+	// build-id, a content hash the host linker adds to externally linked binaries on its own.)
+	if id, err := goBuildIDNote(bin); err == nil && id != "" {
 		leaks = append(leaks, "build ID present: "+id)
 	}
 	if bad, err := elfForbiddenSections(bin); err != nil {
@@ -58,7 +96,7 @@ func metadataProbes(bin string) []string {
 func checkC02(c *Ctx) {
 	c.SetRule("generated multi-package programs whose identifiers, file, directory, module and package names are unique >=11-char random markers; functions and methods are //go:noinline and types are boxed into interfaces " +
 		"so that a regular *stripped* build provably contains the names. Oracle: exact byte search of every must-hide marker, the absolute source directory, TMPDIR, 'garble-shared', the Go version string; " +
-		"`go version -m` == unknown; empty build ID; no .symtab/.strtab/.debug_* sections. distinct_nontrivial = distinct must-hide markers that occur in the regular `-trimpath -ldflags='-s -w'` binary of the same program " +
+		"`go version -m` == unknown; no Go build ID note (or an empty one); no .symtab/.strtab/.debug_* sections and no ELF symbols. distinct_nontrivial = distinct must-hide markers that occur in the regular `-trimpath -ldflags='-s -w'` binary of the same program " +
 		"(so the scan would have seen them had they not been obfuscated). Special-name scenario: a 5-package reflection-free program declares a type, a noinline function, a struct field and a variable named after every identifier-like string literal of garble's own sources (names it special-cases for std packages: Method, FS, align64, ...) and common Go API names; " +
 		"per name and kind the name-map oracle (garbled sources kept by the hook) must show a changed name or the binary must lack `<obfuscated import path>.<name>` (pclntab), the type-string record `*<obfuscated package>.<name>` and the field-name record.")
 	c.Assume("programs never pass user types to reflecting APIs", "markers carry >=53 bits of entropy, so chance matches are impossible")
@@ -92,6 +130,9 @@ func checkC02(c *Ctx) {
 		inPlain := markersIn(plainData, p.Markers)
 		if !bytes.Contains(plainData, []byte(goVersion)) {
 			c.Inconclusive("scanner sensitivity: regular binary lacks the Go version string " + goVersion)
+		}
+		if id, _ := goBuildIDNote(plainBin); id == "" {
+			c.Inconclusive("scanner sensitivity: the regular binary has no Go build ID note")
 		}
 		if i == 0 {
 			var obs []string
